@@ -421,7 +421,7 @@ PLANS = {
     "C08": static_plan("C08", ["C08", "C08files"], ["C08", "C08files", "C01"], {"distinct_feeds": 1000}),
     "C09": static_plan("C09", ["C09"], ["C09", "C09pairs"], {"distinct_feeds": 120}),
     "C10": static_plan("C10", ["C10"], ["C10"], {"distinct_feeds": 300}),
-    "C11": static_plan("C11", ["C11q", "C11b"], ["C11", "C11b"], {"distinct_feeds": 5000}),
+    "C11": static_plan("C11", ["C11q", "C11b"], ["C11", "C11b"], {"distinct_feeds": 2000}),
     "C18": c18_plan,
     "C06": c06_plan,
     "C13": c13_plan,
